@@ -100,7 +100,8 @@ def gen_specs(vh):
     sys.path.insert(0, os.path.join(VERIF, "lib"))
     import gen
     gen.gen_keys(REPO)
-    gen.gen_scores(vh)
+    if vh is not None:
+        gen.gen_scores(vh)
     gen.gen_roots()
 
 
